@@ -83,6 +83,10 @@ def run(ctx):
   tearfree_sketchy(ctx)
   tearfree_graft(ctx)
   schedule(ctx)
+  # "bit-identical between refreshes": on a non-refresh step the candidate is a placeholder and the error a sentinel that the
+  # acceptance gate must reject (non-strict comparison with the threshold, same dtype) - the gate rules decide that
+  from . import C03
+  C03.run_gate(ctx)
 
 
 # ------------------------------------------------------------------ K1
@@ -126,12 +130,14 @@ def counters(ctx):
 def _interval_ok(k, v, which):
   """k is the configured interval (or the schedule call when scheduled)."""
   k = strip_casts(k)
-  if k.op == 'sym' and k.args[0] == 'cfg' and k.args[-1] == which:
-    return True
-  if v is not None and v.get('scheduled') and fn_name(k) == 'preconditioning_compute_steps_schedule':
-    args = k.args[1]
-    return len(args) == 4 and args[1].op == 'sym' and args[1].args[-1] == which
-  return False
+  scheduled = v is not None and v.get('scheduled') and which == 'preconditioning_compute_steps'
+  if scheduled:
+    # under a scheduled interval the guard must use the interval scheduled for THIS step, not the configured start value
+    if fn_name(k) == 'preconditioning_compute_steps_schedule':
+      args = k.args[1]
+      return len(args) == 4 and args[1].op == 'sym' and args[1].args[-1] == which
+    return False
+  return k.op == 'sym' and k.args[0] == 'cfg' and k.args[-1] == which
 
 
 def ds_guards(ctx):
